@@ -5,7 +5,7 @@ import math
 from typing import Any, Dict, List, Optional
 
 from .. import driver
-from ..common import Ctx, b2f, f2b, import_repo, rel_close, ulp_diff
+from ..common import Ctx, b2f, f2b, import_repo, near, rel_close
 
 LEVEL = "proof"
 EXPLANATION = (
@@ -259,9 +259,9 @@ def run(ctx: Ctx) -> None:
                         break
                     mv = b2f(r["heap"][m["lr"]["c"]]) if is_t else b2f(m["lr"]["f"])
                     iv = float(g["lr"])
-                    close = rel_close(mv, iv, 2.0 ** -21) if lr_mode == "t32" and is_t else ulp_diff(mv, iv) <= tol_ulp
+                    close = rel_close(mv, iv, 2.0 ** -21) if lr_mode == "t32" and is_t else near(mv, iv)
                     mwd, iwd = b2f(m["wd"]), float(g["weight_decay"])
-                    close_wd = (rel_close(mwd, iwd, 2.0 ** -21) if lr_mode == "t32" and is_t else ulp_diff(mwd, iwd) <= tol_ulp) \
+                    close_wd = (rel_close(mwd, iwd, 2.0 ** -21) if lr_mode == "t32" and is_t else near(mwd, iwd)) \
                         or (math.isinf(mwd) and math.isinf(iwd)) or (math.isnan(mwd) and math.isnan(iwd))
                     if not (close and close_wd):
                         ok = False
